@@ -507,19 +507,19 @@ struct premain_t
     static void calls()
     {
         // the initial state is a file-static of rand.c: probed, not named - it is 314567651 iff the first
-        // calls return what the documented LCG gives from that state
-        int rv[3];
+        // calls return what the documented LCG gives from that state.  Round 3c: that is a TAG (first word of
+        // the piped line, taken off by the op `premain`); the compared part says only that three rand() calls
+        // before main() returned values in [0, RAND_MAX]
         uint64_t ref = 314567651ull;
         bool init_ok = true;
         for (int i = 0; i < 3; i++)
         {
-            rv[i] = igv_rand();
+            int x = igv_rand();
             ref = lcg_ref(ref);
-            if ((uint64_t)rv[i] != ref / 2) init_ok = false;
+            if ((uint64_t)x != ref / 2) init_ok = false;
+            if (x < 0) g_premain_bad = "rand() before main() returned a negative value";
         }
-        std::string r = std::string("seed0 ") + (init_ok ? "314567651" : "other");
-        r += " rand";
-        for (int i = 0; i < 3; i++) r += " " + std::to_string(rv[i]);
+        std::string r = std::string(init_ok ? "rand-is-documented-lcg" : "rand-differs") + " rand in-range";
         char *e = 0;
         static const char txt[] = " \t-0x7fZ";
         errno = 0;
@@ -723,41 +723,80 @@ static void run_op(const std::vector<std::string> &w, const std::string &, out &
     }
     if (op == "rnd")
     {
-        // rnd <seed> <n>
-        igv_srand((unsigned)strtoul(w[1].c_str(), 0, 10));
+        // rnd <seed> <n>   (round 3c: NOT compared with the model's LCG any more - the property says nothing
+        // about the values of rand(); judged: what qsort relies on and what ISO 7.22.2 states)
+        //   0 <= rand() <= RAND_MAX   (RAND_MAX of compat/libc/include/stdlib.h is INT_MAX; that header cannot
+        //                              be included next to the host's, so INT_MAX stands for it)
+        //   srand(s) makes the sequence reproducible: the same seed gives the same n values again
+        // the compared result is a constant verdict word; "is the LCG rand.c documents" is a TAG
+        unsigned sd0 = (unsigned)strtoul(w[1].c_str(), 0, 10);
         int n = atoi(w[2].c_str());
-        std::string r;
-        uint64_t ref = (unsigned)strtoul(w[1].c_str(), 0, 10);
+        std::vector<int> first;
+        bool is_lcg = true;
+        uint64_t ref = sd0;
+        igv_srand(sd0);
         for (int i = 0; i < n; i++)
         {
             int x = igv_rand();
-            if (x < 0) o.fail("rand() < 0");
-            // the generator rand.c documents ("linear random generator"), evaluated independently in 64 bits
-            ref = ((ref * 16546134871ull + 513585871ull) & 0xffffffffull) % 204814687ull;
-            if ((uint64_t)x != ref / 2) o.fail("rand(): call " + std::to_string(i + 1) + " after srand(" + w[1] + ") returned " + std::to_string(x) + ", the linear congruential generator of rand.c gives " + std::to_string(ref / 2));
-            r += (i ? "," : "") + std::to_string(x);
+            if (x < 0 || (long long)x > (long long)INT_MAX) o.fail("rand(): call " + std::to_string(i + 1) + " after srand(" + w[1] + ") returned " + std::to_string(x) + ", outside [0, RAND_MAX] (qsort computes rand() % nmemb as the pivot index)");
+            ref = lcg_ref(ref);
+            if ((uint64_t)x != ref / 2) is_lcg = false;
+            first.push_back(x);
         }
-        o.result = r.empty() ? "-" : r;
+        igv_srand(sd0);
+        for (int i = 0; i < n; i++)
+        {
+            int x = igv_rand();
+            if (x != first[i])
+            {
+                o.fail("rand(): call " + std::to_string(i + 1) + " after a second srand(" + w[1] + ") returned " + std::to_string(x) + ", after the first srand(" + w[1] + ") it returned " + std::to_string(first[i]) + " (ISO 7.22.2.2: the same seed repeats the sequence)");
+                break;
+            }
+        }
+        o.result = "rand-contract";
         o.tag("rand");
+        if (n) o.tag(is_lcg ? "rand-is-documented-lcg" : "rand-differs");
         return;
     }
     if (op == "rndr")
     {
-        // rndr <seed> <n>: rand_r on the caller's seed
-        unsigned sd = (unsigned)strtoul(w[1].c_str(), 0, 10);
+        // rndr <seed> <n>: rand_r on the caller's seed (round 3c: values not compared, see rnd).  Judged:
+        //   0 <= rand_r() <= RAND_MAX; the result and the new *seedp are a function of *seedp alone (a second
+        //   run from the same seed value repeats both); rand_r writes only *seedp (guard words around the
+        //   seed object stay intact) and leaves the state of rand() alone (the value rand() returns after
+        //   srand(k) is the same with n rand_r calls in between)
+        unsigned sd0 = (unsigned)strtoul(w[1].c_str(), 0, 10);
         int n = atoi(w[2].c_str());
-        std::string r;
-        uint64_t ref = sd;
+        struct { unsigned lo[2]; unsigned sd; unsigned hi[2]; } g = {{0xa5a5a5a5u, 0x5a5a5a5au}, sd0, {0xc3c3c3c3u, 0x3c3c3c3cu}};
+        bool is_lcg = true;
+        uint64_t ref = sd0;
+        igv_srand(0x51ed270bu ^ sd0);
+        int plain = igv_rand();
+        igv_srand(0x51ed270bu ^ sd0);
+        std::vector<std::pair<int, unsigned>> first;
         for (int i = 0; i < n; i++)
         {
-            int x = igv_rand_r(&sd);
-            if (x < 0) o.fail("rand_r() < 0");
-            ref = ((ref * 16546134871ull + 513585871ull) & 0xffffffffull) % 204814687ull;
-            if ((uint64_t)x != ref / 2 || sd != ref) o.fail("rand_r(): call " + std::to_string(i + 1) + " returned " + std::to_string(x) + " / left " + std::to_string(sd) + ", the generator of rand.c gives " + std::to_string(ref / 2) + " / " + std::to_string(ref));
-            r += (i ? "," : "") + std::to_string(x);
+            int x = igv_rand_r(&g.sd);
+            if (x < 0 || (long long)x > (long long)INT_MAX) o.fail("rand_r(): call " + std::to_string(i + 1) + " from the seed " + w[1] + " returned " + std::to_string(x) + ", outside [0, RAND_MAX]");
+            ref = lcg_ref(ref);
+            if ((uint64_t)x != ref / 2 || g.sd != ref) is_lcg = false;
+            first.emplace_back(x, g.sd);
         }
-        o.result = r.empty() ? "-" : r;
+        if (g.lo[0] != 0xa5a5a5a5u || g.lo[1] != 0x5a5a5a5au || g.hi[0] != 0xc3c3c3c3u || g.hi[1] != 0x3c3c3c3cu) o.fail("rand_r(&s) wrote outside *s");
+        if (igv_rand() != plain) o.fail("rand_r() changed the state of rand(): the first rand() after srand() differs when rand_r calls are made in between");
+        unsigned sd2 = sd0;
+        for (int i = 0; i < n; i++)
+        {
+            int x = igv_rand_r(&sd2);
+            if (x != first[i].first || sd2 != first[i].second)
+            {
+                o.fail("rand_r(): call " + std::to_string(i + 1) + " of a second run from the seed " + w[1] + " returned " + std::to_string(x) + " / left " + std::to_string(sd2) + ", the first run " + std::to_string(first[i].first) + " / " + std::to_string(first[i].second));
+                break;
+            }
+        }
+        o.result = "rand_r-contract";
         o.tag("rand_r");
+        if (n) o.tag(is_lcg ? "rand_r-is-documented-lcg" : "rand_r-differs");
         return;
     }
     if (op == "ub" || op == "lb")
@@ -1154,10 +1193,11 @@ static void run_op(const std::vector<std::string> &w, const std::string &, out &
     if (op == "consts")
     {
         // what the compiled code contains, against what the model embeds
-        // rand.c's state: only bits 0..31 of an UNSIGNED object influence the sequence (theorem
-        // rand_state_width_irrelevant), so any unsigned type of >= 32 bits is the same generator
-        // (round 3b: by behaviour - the static is not named any more)
-        o.result = (rand_state_ge32u() ? std::string("rand-state>=32u") : std::string("rand-state-narrower-or-another-generator")) + " ERANGE " + std::to_string(igv_erange()) + " EINVAL " + std::to_string(igv_einval());
+        // round 3c: the probe of rand.c's state (is it the documented LCG on an unsigned state of >= 32 bits,
+        // theorem rand_state_width_irrelevant) is a TAG, not part of the compared result: the property does
+        // not fix the generator
+        o.result = "ERANGE " + std::to_string(igv_erange()) + " EINVAL " + std::to_string(igv_einval());
+        o.tag(rand_state_ge32u() ? "rand-is-documented-lcg" : "rand-differs");
         return;
     }
     if (op == "ctype")
@@ -1170,7 +1210,15 @@ static void run_op(const std::vector<std::string> &w, const std::string &, out &
     }
     if (op == "premain")
     {
-        o.result = g_premain;
+        // first word: the tag about rand()'s initial state (round 3c: not compared)
+        std::string pm = g_premain;
+        size_t sp = pm.find(' ');
+        if (pm.compare(0, 5, "rand-") == 0 && sp != std::string::npos)
+        {
+            o.tag(pm.compare(0, sp, "rand-is-documented-lcg") == 0 ? "rand-is-documented-lcg" : "rand-differs");
+            pm = pm.substr(sp + 1);
+        }
+        o.result = pm;
         if (g_premain_bad) o.fail(g_premain_bad);
         o.tag("before-main");
         return;
